@@ -261,4 +261,53 @@ theorem seq_getitem_int (s : Seq) (i : Int) (rest : List Item) (hne : countEllip
     simp only
     cases cubeItemCheck (s.shapes.getD k []) rest <;> rfl
 
+/-- **`shape` and `cube_like_shape` describe the cubes actually held**: the first entry is the number
+of cubes; along the common axis the entry is the tuple of every cube's own length as soon as two
+cubes differ (whichever two — the middle ones included), and the common length otherwise; the
+cube-like length of the common axis is the sum of the cubes' lengths. -/
+theorem seq_shape_spec (s : Seq) (a : Nat) (hca : s.commonAxis = some a)
+    (ha : a < (s.shapes.headD []).length) :
+    (s.shape)[0]? = some (.int s.shapes.length) ∧
+    ((∃ x ∈ s.shapes.map (fun sh => sh.getD a 0), ∃ y ∈ s.shapes.map (fun sh => sh.getD a 0), x ≠ y) →
+      (s.shape)[a + 1]? = some (.ragged (s.shapes.map fun sh => sh.getD a 0))) ∧
+    (s.shapes ≠ [] → (∀ x ∈ s.shapes.map (fun sh => sh.getD a 0), x = (s.shapes.headD []).getD a 0) →
+      (s.shape)[a + 1]? = some (.int ((s.shapes.headD []).getD a 0))) ∧
+    s.cubeLikeShape = .ok ((s.shapes.headD []).set a (s.shapes.map fun sh => sh.getD a 0).sum) := by
+  have hsame : ∀ (l : List Nat), allSame l = true ↔ (l ≠ [] ∧ ∀ x ∈ l, x = l.headD 0) := by
+    intro l
+    cases l with
+    | nil => simp [allSame]
+    | cons x xs =>
+      simp only [allSame, List.all_eq_true, beq_iff_eq, ne_eq, reduceCtorEq, not_false_eq_true, true_and,
+        List.mem_cons, List.headD_cons, forall_eq_or_imp]
+  have ha' : a < (s.shapes.head?.getD []).length := by
+    rw [← List.headD_eq_head?_getD]; exact ha
+  refine ⟨?_, ?_, ?_, ?_⟩
+  · simp only [Seq.shape, hca]
+    split <;> simp
+  · rintro ⟨x, hx, y, hy, hxy⟩
+    have hns : allSame (s.shapes.map fun sh => sh.getD a 0) = false := by
+      cases h : allSame (s.shapes.map fun sh => sh.getD a 0) with
+      | false => rfl
+      | true =>
+        have := ((hsame _).mp h).2
+        exact absurd ((this x hx).trans (this y hy).symm) hxy
+    simp only [Seq.shape, hca, hns, Bool.not_false, if_true]
+    rw [List.getElem?_set_self (by simp only [List.length_cons, List.length_map]; omega)]
+  · intro hne hall
+    have hs : allSame (s.shapes.map fun sh => sh.getD a 0) = true := by
+      rw [hsame]
+      refine ⟨by simpa using hne, ?_⟩
+      intro x hx
+      rw [hall x hx]
+      cases hsh : s.shapes with
+      | nil => exact absurd hsh hne
+      | cons c cs => simp
+    simp only [Seq.shape, hca, hs, Bool.not_true, Bool.false_eq_true, if_false]
+    rw [List.getElem?_cons_succ, List.getElem?_map]
+    simp only [List.getD, List.headD_eq_head?_getD]
+    rw [List.getElem?_eq_getElem ha']
+    rfl
+  · simp [Seq.cubeLikeShape, hca]
+
 end Ndcube.C11
